@@ -9,11 +9,15 @@ use std::marker::PhantomData;
 
 verus! {
 pub type WorkerId = usize;
-pub trait JobKey: Sized {}
+pub trait JobKey: Sized + HashLike {}
 pub trait Message: Sized {}
 #[verifier::external_body] pub struct JobOptions { _p: u8 }
 #[verifier::external_body] #[verifier::reject_recursive_types(K)] #[verifier::reject_recursive_types(M)]
 pub struct ReplyPort<K, M> { _p: core::marker::PhantomData<(K, M)> }
+} // verus!
+pub mod poolmod {
+    use super::*;
+    verus! {
 #[verifier::external_body] #[verifier::reject_recursive_types(K)] #[verifier::reject_recursive_types(M)]
 pub struct WorkerProperties<K, M> { _p: core::marker::PhantomData<(K, M)> }
 /// the pool (R9 stand-in for HashMap<WorkerId, WorkerProperties>): which ids exist and which of them are available
@@ -22,18 +26,67 @@ pub struct Pool<K, M> { _p: core::marker::PhantomData<(K, M)> }
 impl<K, M> WorkerProperties<K, M> {
     pub uninterp spec fn available(&self) -> bool;
     pub uninterp spec fn wid_view(&self) -> WorkerId;
+    /// the worker has this key pending (active or queued) / in flight
+    pub uninterp spec fn pending(&self, k: K) -> bool;
+    pub uninterp spec fn processing(&self, k: K) -> bool;
+    #[verifier::external_body]
+    pub fn has_pending_key(&self, key: &K) -> (r: bool) ensures r == self.pending(*key) { unimplemented!() }
+    #[verifier::external_body]
+    pub fn is_processing_key(&self, key: &K) -> (r: bool) ensures r == self.processing(*key) { unimplemented!() }
     #[verifier::external_body]
     pub fn is_available(&self) -> (r: bool) ensures r == self.available() { unimplemented!() }
 }
 impl<K, M> Pool<K, M> {
     pub uninterp spec fn has(&self, w: WorkerId) -> bool;
     pub uninterp spec fn avail(&self, w: WorkerId) -> bool;
+    /// (w, p) is an entry of the map: p is THE record stored under w
+    pub uninterp spec fn entry_is(&self, w: WorkerId, p: WorkerProperties<K, M>) -> bool;
+    #[verifier::external_body]
+    pub fn iter<'a>(&'a self) -> (r: PoolIter<'a, K, M>) ensures r.pool() == self { unimplemented!() }
+
     #[verifier::external_body]
     pub fn get(&self, wid: &WorkerId) -> (r: Option<&WorkerProperties<K, M>>)
-        ensures r is Some <==> self.has(*wid), r matches Some(w) ==> w.available() == self.avail(*wid) && w.wid_view() == *wid,
+        ensures r is Some <==> self.has(*wid), r matches Some(w) ==> self.entry_is(*wid, *w) && w.available() == self.avail(*wid) && w.wid_view() == *wid,
     { unimplemented!() }
     #[verifier::external_body]
     pub fn contains_key(&self, wid: &WorkerId) -> (r: bool) ensures r == self.has(*wid) { unimplemented!() }
+}
+
+
+/// A-std (a map holds one record per key): an entry's key exists and the availability seen through the entry is the map's
+#[verifier::external_body]
+pub broadcast proof fn axiom_entry<K, M>(pool: &Pool<K, M>, w: WorkerId, p: WorkerProperties<K, M>)
+    requires #[trigger] pool.entry_is(w, p),
+    ensures pool.has(w), pool.avail(w) == p.available(), p.wid_view() == w,
+{}
+    } // verus!
+}
+pub use poolmod::*;
+verus! {
+broadcast use poolmod::axiom_entry;
+/// macro-generated (impl_routing_mode!) marker struct: its two PhantomData fields are never read
+pub struct KeyPersistentRouting<TKey, TMsg> { pub _key: PhantomData<TKey>, pub _msg: PhantomData<TMsg> }
+
+/// iteration over the pool (R9 stand-in for hash_map::Iter) with the two adapters the routers use
+#[verifier::external_body] #[verifier::reject_recursive_types(K)] #[verifier::reject_recursive_types(M)]
+pub struct PoolIter<'a, K, M> { _p: core::marker::PhantomData<&'a (K, M)> }
+impl<'a, K, M> PoolIter<'a, K, M> {
+    pub uninterp spec fn pool(self) -> &'a Pool<K, M>;
+    /// A-std: find_map returns f's first Some over the entries, None if f is None on every entry
+    #[verifier::external_body]
+    pub fn find_map<B, F: FnMut((&'a WorkerId, &'a WorkerProperties<K, M>)) -> Option<B>>(self, f: F) -> (r: Option<B>)
+        requires forall|w: &'a WorkerId, p: &'a WorkerProperties<K, M>| f.requires(((w, p),)),
+        ensures
+            r matches Some(b) ==> exists|w: &'a WorkerId, p: &'a WorkerProperties<K, M>| self.pool().entry_is(*w, *p) && f.ensures(((w, p),), Some(b)),
+            r is None ==> forall|w: &'a WorkerId, p: &'a WorkerProperties<K, M>| self.pool().entry_is(*w, *p) ==> f.ensures(((w, p),), None::<B>),
+    { unimplemented!() }
+    #[verifier::external_body]
+    pub fn find<F: FnMut(&(&'a WorkerId, &'a WorkerProperties<K, M>)) -> bool>(self, f: F) -> (r: Option<(&'a WorkerId, &'a WorkerProperties<K, M>)>)
+        requires forall|e: (&'a WorkerId, &'a WorkerProperties<K, M>)| f.requires((&e,)),
+        ensures
+            r matches Some(e) ==> self.pool().entry_is(*e.0, *e.1) && f.ensures((&e,), true),
+            r is None ==> forall|w: &'a WorkerId, p: &'a WorkerProperties<K, M>| self.pool().entry_is(*w, *p) ==> f.ensures((&(w, p),), false),
+    { unimplemented!() }
 }
 
 /// std DefaultHasher stand-in: the hash value is unconstrained (any u64)
@@ -53,6 +106,11 @@ pub trait CustomHashFunction<TKey>: Sized {
 pub assume_specification<T> [bool::then_some::<T>] (b: bool, t: T) -> (r: Option<T>)
     ensures r == (if b { Some(t) } else { None::<T> });
 
+/// A-std: Option::filter
+pub assume_specification<T, P: FnOnce(&T) -> bool> [Option::<T>::filter] (o: Option<T>, pred: P) -> (r: Option<T>)
+    requires o is Some ==> pred.requires((&o.unwrap(),)),
+    ensures o is None ==> r is None, r is Some ==> r == o && pred.ensures((&o.unwrap(),), true),
+        (o is Some && r is None) ==> pred.ensures((&o.unwrap(),), false);
 pub assume_specification<T, A: core::alloc::Allocator> [VecDeque::<T, A>::is_empty] (q: &VecDeque<T, A>) -> (r: bool)
     ensures r == (q@.len() == 0);
 
